@@ -1333,17 +1333,14 @@ impl TextSelectionSet {
         if self.is_empty() {
             None
         } else {
-            if self.sorted {
-                self.data.get(self.data.len() - 1)
-            } else {
-                let mut rightmost: Option<&TextSelection> = None;
-                for item in self.iter() {
-                    if rightmost.is_none() || item.end > rightmost.unwrap().end {
-                        rightmost = Some(item);
-                    }
+            //note: the canonical order is by begin first, so also in a sorted set the last item is not necessarily the one that ends last
+            let mut rightmost: Option<&TextSelection> = None;
+            for item in self.iter() {
+                if rightmost.is_none() || item.end > rightmost.unwrap().end {
+                    rightmost = Some(item);
                 }
-                rightmost
             }
+            rightmost
         }
     }
 
